@@ -198,9 +198,10 @@ func c02Gen(c *Ctx) {
 }
 
 // errorFlow classifies what happens to the error result of call in fn:
-//   "propagated": the error value (possibly through graphql.ErrorOnPath / fmt.Errorf wrapping) is returned as the function's error result
-//   "tested":     a branch tests it and the failure edge only reaches returns with a non-nil error
-//   otherwise a description of the problem.
+//
+//	"propagated": the error value (possibly through graphql.ErrorOnPath / fmt.Errorf wrapping) is returned as the function's error result
+//	"tested":     a branch tests it and the failure edge only reaches returns with a non-nil error
+//	otherwise a description of the problem.
 func (c *Ctx) errorFlow(fn *ssa.Function, call *ssa.Call) string {
 	nres := call.Call.Signature().Results().Len()
 	var errV ssa.Value
@@ -313,7 +314,9 @@ func c02ArgErrors(c *Ctx) {
 			switch {
 			case fn.Parent() == nil && strings.HasPrefix(name, "_") && isFieldFuncSig(fn):
 				var fcCall *ssa.Call
-				for _, call := range an.CallsIn(fn, func(_ ssa.CallInstruction, ci an.CalleeInfo) bool { return ci.Static != nil && strings.HasPrefix(ci.Static.Name(), "fieldContext_") }) {
+				for _, call := range an.CallsIn(fn, func(_ ssa.CallInstruction, ci an.CalleeInfo) bool {
+					return ci.Static != nil && strings.HasPrefix(ci.Static.Name(), "fieldContext_")
+				}) {
 					fcCall, _ = call.(*ssa.Call)
 				}
 				if fcCall == nil {
@@ -336,7 +339,10 @@ func c02ArgErrors(c *Ctx) {
 							n++
 							ok2 := false
 							for _, f := range an.Facts(in) {
-								if empty, k := an.EmptinessFact(f, func(v ssa.Value) bool { cc := an.AllExtractOf(v, 1); return cc != nil && cc == ssa.CallInstruction(fcCall) }); k && empty {
+								if empty, k := an.EmptinessFact(f, func(v ssa.Value) bool {
+									cc := an.AllExtractOf(v, 1)
+									return cc != nil && cc == ssa.CallInstruction(fcCall)
+								}); k && empty {
 									ok2 = true
 								}
 							}
@@ -571,7 +577,9 @@ func c02InputTable(c *Ctx) {
 			}
 			// every case stores into the result
 			for k, blk := range cases {
-				region := an.Reach(blk, func(b *ssa.BasicBlock) bool { return b != blk && (isCaseHead(b, cases) || isLoopHeader(b) || stopBlocks[b]) })
+				region := an.Reach(blk, func(b *ssa.BasicBlock) bool {
+					return b != blk && (isCaseHead(b, cases) || isLoopHeader(b) || stopBlocks[b])
+				})
 				stores := false
 				for b := range region {
 					if b != blk && (isCaseHead(b, cases) || isLoopHeader(b) || stopBlocks[b]) {
